@@ -24,7 +24,11 @@ EXPLANATION = (
     "membership guards. R09.5/R09.8: the combinators, the parse state, the "
     "furthest-error merge and the entry function are compared in normal "
     "form with references (int() only after isdecimal(), backtracking "
-    "restores position, error position = furthest).")
+    "restores position, error position = furthest). R09.4 also: a bond is "
+    "added only between indices tested unequal; the result of "
+    "GetBondBetweenAtoms is not dereferenced before the method's own test "
+    "of it; the raise structure of every raising reader method equals its "
+    "reviewed reference.")
 NOT_DECIDED = ("wall-clock bounds (backtracking is finite, not shown "
                "polynomial); exceptions from inside RDKit other than the "
                "RuntimeError the readers catch; MemoryError; recursion "
